@@ -211,11 +211,20 @@ def check_to_unitary(ctx):
     ctx.analysed(fi)
     rets = returned_exprs(fi.node)
     folds = [r for r in rets if fold_direction(fi.node, r) is not None]
-    if len(rets) != 1 or len(folds) != 1:
+    # an identity returned for the empty product is the only other exit accepted
+    def _is_identity(r):
+        return isinstance(r, ast.Call) and (dotted(r.func) or "").split(".")[-1] in ("eye", "identity") and r.args and "n_qubits" in norm(r.args[0]) and "2 **" in norm(r.args[0])
+    idents = [r for r in rets if _is_identity(r)]
+    if len(folds) != 1 or len(rets) != 1 + len(idents):
         ctx.undecided(R2, fi.key, f"return value {short(rets[0]) if rets else ''} is not a recognised matrix-product fold (reduce(operator.matmul, xs) / lambda fold)", fi)
         return
     fold = folds[0]
     where = f"{fi.module.relpath}:{fold.lineno}"
+    # the empty product: a circuit without operations (idle register) denotes the identity; reduce() without an initial value
+    # raises TypeError on an empty sequence instead
+    has_init = len(fold.args) >= 3
+    guarded = bool(idents) and any(isinstance(n, ast.If) and any(x in norm(n.test) for x in ("not lifted", "not self.operations", "not self._operations", "len(")) and any(any(y is i for y in ast.walk(b)) for b in n.body for i in idents) for n in body_walk(fi.node))
+    ctx.check(has_init or guarded, R2, fi.key + ":empty-product", "a circuit without operations has the identity as its matrix", "the matrix product is folded without an initial value and without a guard for the empty case: Circuit(n_qubits=2).to_unitary() raises TypeError (reduce() of empty iterable) instead of returning the identity on the register", where)
     fd = fold_direction(fi.node, fold)
     o = Orient(fi.node, lambda e: norm(e) in ("self.operations", "self._operations"))
     p = o.parity(fold.args[1])
